@@ -1695,6 +1695,63 @@ pub fn random_layout(r: &mut StdRng, ts: &[Tok]) -> String {
     })
 }
 
+/// any white space (or none) in any gap, regardless of whether the gap needs one: the character-level
+/// specification decides what the resulting text means
+pub fn wild_layout(r: &mut StdRng, ts: &[Tok]) -> String {
+    let ws = ["", "", "", " ", " ", "  ", "\n", "\r\n", "\r", "\t", " \n "];
+    let mut s = String::new();
+    if r.random_range(0..6) == 0 {
+        s.push_str(["  ", "\t", "\n", "\u{a0}", "\u{2003} "][r.random_range(0..5)]);
+    }
+    for (i, t) in ts.iter().enumerate() {
+        if i > 0 {
+            // mostly the conventional layout, sometimes an arbitrary one
+            let c = gap_class(&ts[i - 1], t);
+            let g = if r.random_range(0..3) == 0 {
+                ws[r.random_range(0..ws.len())]
+            } else if c == 0 || (c == 1 && r.random_range(0..2) == 0) {
+                ""
+            } else {
+                " "
+            };
+            s.push_str(g);
+        }
+        s.push_str(&t.text());
+    }
+    if r.random_range(0..6) == 0 {
+        s.push_str([" ", "\t", "\r\n", "\u{a0}"][r.random_range(0..4)]);
+    }
+    s
+}
+
+/// one to three character-level edits
+pub fn corrupt_text(r: &mut StdRng, s: &str) -> String {
+    let mut cs: Vec<char> = s.chars().collect();
+    for _ in 0..r.random_range(1..4) {
+        if cs.is_empty() {
+            break;
+        }
+        let i = r.random_range(0..cs.len());
+        let pool = ['"', '\\', '#', '(', ')', '[', ']', '{', '}', '\u{e9}', '\n', '$', '*', '.', ':', '/', ' ', 'r', 'x', '0', '1', 'a', 'n', '!', '&', '|', '=', '~', ',', '-', '_'];
+        match r.random_range(0..5) {
+            0 => {
+                cs.remove(i);
+            }
+            1 => {
+                let c = cs[i];
+                cs.insert(i, c);
+            }
+            2 => cs.insert(i, pool[r.random_range(0..pool.len())]),
+            3 => cs[i] = pool[r.random_range(0..pool.len())],
+            _ => {
+                let j = r.random_range(0..cs.len());
+                cs.swap(i, j);
+            }
+        }
+    }
+    cs.into_iter().collect()
+}
+
 #[allow(dead_code)]
 pub fn unused(_: Value) -> Value {
     json!(null)
